@@ -20,10 +20,14 @@ def cases(tier, seed, prop):
         s = gens.rand_abbr(rnd, [rnd.randint(1, 8)], 3)
         for _ in range(rnd.randint(0, 2)): s = gens.mutate(rnd, s, gens.ABBR_ALPHA + gens.NONASCII)
         out.append({'s': s, 'g': 'abbr'})
+    for depth in (2000, 30000):
+        out.append({'s': 'a{${1:' + '{' * depth + 'x' + '}' * depth + '}}', 'g': 'deep-braces', 'deep': 1})
+        out.append({'s': 'a[b=${1:' + '{' * depth + '}' * depth + '}]', 'g': 'deep-braces', 'deep': 1})
     return out
 
 
 def req(case):
+    if case.get('deep'): return hx('a')
     return hx(case['s']) if case['s'] else ''
 
 
@@ -69,12 +73,20 @@ def run(case, prop):
     except ScannerException as e:
         outcome = ('scanner', e.pos); line = 'err %s' % e.pos
     except RecursionError:
-        raise
+        if not case.get('deep'): raise
+        outcome = ('exc', 'RecursionError'); line = 'EXC RecursionError'
     except Exception as e:
         outcome = ('exc', type(e).__name__); line = 'EXC %s' % type(e).__name__
     viol = oracle_C18(s, outcome) if prop == 'C18' else []
     tags = {'outcome:' + outcome[0]: 1, 'gen:' + case['g']: 1}
     return line, viol, tags
+
+
+def compare(case, line, ml):
+    if case.get('deep'): return None          # far beyond the model's fuel budget: judged on the implementation only
+    import vlib
+    if vlib.unmodelled_text(case['s']): return None
+    return line == ml
 
 
 def nontrivial(case, line):
